@@ -52,3 +52,25 @@ Definition from_series (v : list Qc) : cres :=
   | _ => let v' := filter (fun x => negb (Qceqb x 0)) v in
          if existsb (fun x => Qcleb x 0) v' then CErr NegativeEntry else COk v'
   end.
+
+(* ------------------------------------------------------------------ *)
+(* labelled front ends (Event._build_industries_idx, distribute_impact_industries):
+   labels are numbered by the harness; a label listed several times counts once, the
+   first occurrence is kept (pandas Index.drop_duplicates); the weights are looked up
+   by label in the supplied Series. *)
+Fixpoint dedup (l : list nat) : list nat :=
+  match l with
+  | [] => []
+  | x :: r => x :: filter (fun y => negb (Nat.eqb x y)) (dedup r)
+  end.
+Definition lookupw (w : list (nat * Qc)) (k : nat) : option Qc :=
+  match find (fun p => Nat.eqb (fst p) k) w with Some p => Some (snd p) | None => None end.
+Definition weights_on (w : option (list (nat * Qc))) (lbls : list nat) : option (list (option Qc)) :=
+  match w with None => None | Some l => Some (map (lookupw l) lbls) end.
+Definition scalar_labelled (I : Qc) (aff : list nat) (w : option (list (nat * Qc))) : list nat * cres :=
+  let a := dedup aff in (a, distribute_scalar I (length a) (weights_on w a)).
+Definition regsec_labelled (I : Qc) (regs secs : list nat) (wr ws : option (list (nat * Qc)))
+  : list (nat * nat) * cres :=
+  let r := dedup regs in
+  let s := dedup secs in
+  (list_prod r s, distribute_regions_sectors I (length r) (length s) (weights_on wr r) (weights_on ws s)).
